@@ -16,6 +16,7 @@ Batches are never nested (ScratchDB has no pop(): committing a batch opened on a
 trie was never supported by the code, DESIGN.md section 5).
 """
 import random
+import zlib
 
 from trie import HexaryTrie
 
@@ -297,6 +298,7 @@ def gen_history(rnd, nops, prune=None, batch_p=0.25, kind=None, abort_p=0.35, un
         "foreign_batch": rnd.random() < 0.2,
         "rc": "counter" if rnd.random() < 0.2 else "default",
         "db": rnd.choice(["dict", "dict", "dictsub", "dictsub"]) if rnd.random() < 0.25 else "recording",
+        "fork": rnd.random() < 0.15,
     }
 
 
@@ -384,6 +386,10 @@ def gen_bulk_history(rnd, tier="quick", **kw):
 
 
 # -------------------------------------------------------------------------- execution
+class HexLike(bytes):
+    """a subclass of bytes, like hexbytes.HexBytes"""
+
+
 def apply_plain(trie, model, op, expect=()):
     """Apply one plain op to a real trie (through cut) and to the model.  An exception of a
     type listed in `expect` is returned as Raised and the model is left alone."""
@@ -413,8 +419,16 @@ def apply_plain(trie, model, op, expect=()):
             raise Violation("badarg-accepted", "set(%s, %r) was accepted" % (op[1], bad))
         return None
     k = unhx(op[1])
+    # byte strings of a SUBCLASS of bytes (what hexbytes.HexBytes, and so web3, hands out) are
+    # byte strings: some operations - chosen by the operation itself, so that replays agree -
+    # pass their key and value that way, the empty value included (equal to b"", not identical)
+    sub = zlib.crc32(repr(op[:3]).encode()) % 4 == 0
+    if sub:
+        k = HexLike(k)
     if kind == "set":
         v = unhx(op[2])
+        if sub:
+            v = HexLike(v)
         res = cut(trie.__setitem__ if op[3] else trie.set, k, v, expect=expect)
         if isinstance(res, Raised):
             return res
@@ -425,7 +439,7 @@ def apply_plain(trie, model, op, expect=()):
             return res
         model.pop(k, None)
     elif kind == "sete":
-        res = cut(trie.__setitem__ if op[2] else trie.set, k, b"", expect=expect)
+        res = cut(trie.__setitem__ if op[2] else trie.set, k, HexLike(b"") if sub else b"", expect=expect)
         if isinstance(res, Raised):
             return res
         model.pop(k, None)
@@ -467,6 +481,7 @@ class Runner:
         self.rnd = random.Random(case.get("pseed", 0))
         self.universe = None
         self.step = 0
+        self.forks_done = 0
         self.in_batch = False
 
     # hooks -------------------------------------------------------------------
@@ -482,10 +497,35 @@ class Runner:
     def after_batch(self, op, outcome, bmodel, final_root):
         """outcome: 'commit' | 'abort'"""
 
+    def run_fork(self):
+        """A shallow copy of the (non-pruning) trie object - same database, same root, independent
+        afterwards - runs ahead through the next plain operations of the history.  The copy
+        answers for its contents; the original, which has not moved, for its own."""
+        import copy
+
+        fork, fmodel = copy.copy(self.trie), dict(self.model)
+        ahead = [o for o in self.case["ops"][self.step - 1: self.step + 3] if o[0] in ("set", "del", "sete")]
+        for o in ahead:
+            apply_plain(fork, fmodel, o)
+        both = dict(self.model)
+        both.update(fmodel)
+        probes = gen.probe_keys(self.rnd, both)
+        if len(probes) > 80:
+            probes = self.rnd.sample(probes, 80)
+        lookup_sweep(fork, fmodel, probes, self.ctx, where="copy.copy of the trie after %d writes of its own: " % len(ahead))
+        lookup_sweep(self.trie, self.model, probes, self.ctx, where="original trie after a copy.copy of it was written: ")
+        root_audit(fork, self.db.raw(), fmodel, self.ctx, where="copy.copy of the trie: ")
+        root_audit(self.trie, self.db.raw(), self.model, self.ctx, where="original trie after a copy.copy of it was written: ")
+        self.ctx.count("forked_copies")
+
     # driver ------------------------------------------------------------------
     def run(self):
         for op in self.case["ops"]:
             self.step += 1
+            if (self.case.get("fork") and not self.prune and self.step % 4 == 2 and op[0] in ("set", "del", "sete")
+                    and self.forks_done < 3):
+                self.forks_done += 1
+                self.run_fork()
             if op[0] == "batch":
                 self.run_batch(op)
             elif op[0] == "fail":
@@ -644,6 +684,8 @@ def lookup_sweep(trie, model, probes, ctx, where=""):
         got = cut(trie.__getitem__, k)
         if got != exp:
             raise Violation("lookup-getitem", "%strie[%s]=%s, model says %s" % (where, hx(k), hx(got), hx(exp)))
+        if not isinstance(got, bytes):
+            raise Violation("lookup-getitem", "%strie[%s] returned a %s, not a byte string" % (where, hx(k), type(got).__name__))
         e = cut(trie.exists, k)
         if e is not (k in model):
             raise Violation("lookup-exists", "%sexists(%s)=%r, model says %r" % (where, hx(k), e, k in model))
